@@ -585,7 +585,18 @@ impl Plan {
 /// content classes (rather than sizes): all-zero, all-ones, and one value shared by every byte
 /// member so that two members can carry the very same value
 fn content_bytes(len: usize) -> Vec<V> {
-    vec![V::B(vec![0x00; len]), V::B(vec![0xff; len]), V::B(vec![0x5a; 16.min(len)])]
+    let mut v = vec![V::B(vec![0x00; len]), V::B(vec![0xff; len]), V::B(vec![0x5a; 16.min(len)])];
+    if len >= 12 {
+        // looks like a DER object whose header announces fewer bytes than follow, and one that
+        // announces exactly the rest (a certificate with trailing bytes / two concatenated objects)
+        let mut d = vec![0x33u8; len];
+        d[..4].copy_from_slice(&[0x30, 0x82, 0x00, 0x05]);
+        v.push(V::B(d.clone()));
+        d[2] = ((len - 4) >> 8) as u8;
+        d[3] = (len - 4) as u8;
+        v.push(V::B(d));
+    }
+    v
 }
 
 /// reserved / unusual characters, an embedded NUL, surrounding blanks, mixed-width non-ASCII, and
@@ -714,6 +725,9 @@ pub fn menu(ty: &Ty, id: usize, side: Side) -> Vec<V> {
             v.push(V::t(&format!("{} ", "e".repeat(n - 1))));
             v.push(V::t(&format!("{}\u{3000}", "e".repeat(n - 3))));
             v.push(V::t(&format!(" {}", "e".repeat(n - 1))));
+            v.push(V::t(&format!("{}\u{200d}", "e".repeat(n - 3))));
+            v.push(V::t(&format!("{}\r\n", "e".repeat(n - 2))));
+            v.push(V::t(&format!("{}\u{0}", "e".repeat(n - 1))));
             if req {
                 v.extend(lens_text(&[n + 1, 200]));
                 v.push(V::t(&fill_wide(n + 2, 3)));
@@ -806,6 +820,9 @@ pub fn menu(ty: &Ty, id: usize, side: Side) -> Vec<V> {
             V::A(vec![param(i32::MIN as i64, PUBLIC_KEY), param(i32::MAX as i64, PUBLIC_KEY)]),
         ],
         Ty::Formats => vec![
+            // anchor default: both known formats, an unknown one, and entries behind the point where
+            // both slots are taken and the flag is set (what happens to later entries matters too)
+            V::A(vec![V::t("packed"), V::t("tpm"), V::t("none"), V::t("apple"), V::t("packed")]),
             V::A(vec![V::t("packed"), V::t("tpm"), V::t("none")]),
             V::A(vec![]),
             V::A(vec![V::t("none")]),
@@ -855,6 +872,17 @@ pub fn menu(ty: &Ty, id: usize, side: Side) -> Vec<V> {
                 packed(-65537, SIG_MAX, Some(1024)),
                 // x5c present but empty
                 V::M(vec![(V::t("alg"), V::int(-7)), (V::t("sig"), V::B(fill_bytes(64, id))), (V::t("x5c"), V::A(vec![]))]),
+                // a certificate followed by more bytes than its DER header announces (two
+                // concatenated objects, trailing bytes), and a signature whose DER lengths disagree
+                {
+                    let mut cert = fill_bytes(200, id + 9);
+                    cert[..4].copy_from_slice(&[0x30, 0x82, 0x00, 0x60]);
+                    let mut sig = fill_bytes(70, id);
+                    sig[..6].copy_from_slice(&[0x30, 0x20, 0x02, 0x20, 0x00, 0x81]);
+                    V::M(vec![(V::t("alg"), V::int(-7)), (V::t("sig"), V::B(sig)), (V::t("x5c"), V::A(vec![V::B(cert)]))])
+                },
+                // all-zero certificate and signature
+                V::M(vec![(V::t("alg"), V::int(-7)), (V::t("sig"), V::B(vec![0; 64])), (V::t("x5c"), V::A(vec![V::B(vec![0; 32])]))]),
             ]
         }
         Ty::EmptyMap => vec![V::M(vec![])],
